@@ -12,6 +12,7 @@ import sched_common as S
 import sched_gen as G
 import c06_interp as I
 import c06_transit as TR
+import c06_scene as SC
 from fractions import Fraction as F
 from math import ceil
 
@@ -453,6 +454,8 @@ def check(run):
         S.report_disagreement(run, fin[i], results[i], "correspondence", "Timeline/Track", {"meta": scs[i]["meta"]})
     # stratum T: operations issued from another track's callback in the tick in which the target finishes / is in a transitional state
     TR.transit_part(run, 140 if quick else 1500)
+    # stratum S: scene changes - one callback removes k tracks and schedules k new ones (the number of tracks is unchanged)
+    SC.scene_part(run, 24 if quick else 400)
     # stratum I: lifecycle operations applied to interpolating (linear / cosine) control tracks
     I.interp_part(run, 150 if quick else 1500)
     run.cov["rule"] = ("one case = one history: (P) planned lifecycle of 1-4 schedule calls (lengths 0/1/3/endless, counts, gates to 8, rwd, names, "
